@@ -134,6 +134,9 @@ def h_checkpoint(e, cfg):
         run_step(e, cfg, Bm, e.sym((B, 3), torch.bool, f"o{t}", ind=True))
     if k == 0:
         run_step(e, cfg, A, e.sym((B, 3), torch.bool, "a_init", ind=True))      # shapes exist in the checkpoint as well
+    from harness.common import witness_any
+    if cfg["layer"] == "recurrent" and k >= 2:
+        witness_any(e, "checkpoint:feedback-spikes-pending-at-the-checkpoint", A[0].feedback_spikes)
     snaps = [snapshot(A[0]), snapshot(A[1]) if A[1] is not None else None, snapshot(A[2])]
     Bm[0].load_state_dict(snaps[0])
     if Bm[1] is not None:
@@ -146,6 +149,7 @@ def h_checkpoint(e, cfg):
     for t in range(m):
         x = e.sym((B, 3), torch.bool, f"x{t}", ind=True)
         oa, ob = flat(run_step(e, cfg, A, x)), flat(run_step(e, cfg, Bm, x))
+        witness_any(e, "future:a-neuron-spikes-after-the-restore", *oa)
         for i, (u, v) in enumerate(zip(oa, ob)):
             e.oblige_eq("future:output", v, e.read(u), step=t, out=i)
         compare_sd(e, A[0], Bm[0], "future:layer", step=t)
